@@ -257,6 +257,31 @@ pub fn generate(a: &Args) {
             }
         }
     }
+    // (1b) the twenty built-in 8-bit decoders, factory-built, on LLRs of the 1/8 grid (x8 = 8*llr is an integer, so the
+    // quantiser involves no rounding): TLC predicts the full result from BP.tla composed with Arith.tla (BP8.tla)
+    let names8: Vec<&str> = NAMES.iter().copied().filter(|n| n.contains("i8")).collect();
+    let n8 = if th { 400 } else { 40 };
+    for name in names8.iter() {
+        let hl = name.starts_with("HL");
+        let arith = if hl { &name[2..] } else { name };
+        for i in 0..n8 {
+            let (rows, n) = if i % 3 == 0 { random_forest(&mut rng, 5, 9) } else { random_code(&mut rng, i, 5, 9) };
+            let mut dec = match guarded(|| build(name, matrix(&rows, n)).expect("name")) { Ok(d) => d, Err(_) => continue };
+            for call in 0..3 {
+                let span = [12i64, 60, 130, 200][(i + call) % 4];
+                let x8: Vec<i64> = (0..n).map(|_| match (i + call) % 5 { 0 => *rng.pick(&[127i64, -127, 116, -116, 117, -117, 100, -100, 99, 0]), _ => rng.range(-span, span) }).collect();
+                let llrs: Vec<f64> = x8.iter().map(|&x| x as f64 / 8.0).collect();
+                let limit = [0usize, 1, 2, 3, 5, 8][(i + call) % 6];
+                out.new_case();
+                let base = json!({"name": name, "arith": arith, "kind": if arith.starts_with("Minstar") { "minstar" } else { "aminstar" }, "phl": arith.contains("PartialHardLimit"),
+                    "jones": arith.contains("Jones"), "deg1": arith.contains("Deg1Clip"), "sched": if hl { "layered" } else { "flooding" }, "rows": rows, "n": n, "x8": x8, "limit": limit, "call": call});
+                match guarded(|| dec.decode(&llrs, limit)) {
+                    Ok(r) => { let rj = result_json(&r); let mut e = base; e["verdict"] = rj["verdict"].clone(); e["word"] = rj["word"].clone(); e["iters"] = rj["iters"].clone(); out.ev("Dec8", "ok", e); }
+                    Err(m) => { let mut e = base; e["msg"] = json!(m); out.ev("Dec8", "panic", e); }
+                }
+            }
+        }
+    }
     // (2) posterior clause: exact sum-product arithmetics on forests, at least graph-diameter iterations
     let n2 = if th { 1500 } else { 120 };
     for i in 0..n2 {
